@@ -123,6 +123,37 @@ func (s *shaper) returnsQuietly(b *ssa.BasicBlock) bool {
 	return walk(b)
 }
 
+// quietLeave: from arm a of the branch in block cur (inside a loop being
+// walked) the branch is never reached again — a search/flag variable set on the
+// way makes the loop condition false — and the loop exit is reached without
+// touching the stream: the arm is a break.
+func (s *shaper) quietLeave(cur *ssa.BasicBlock, arm int) bool {
+	if len(s.exits) == 0 {
+		return false
+	}
+	a := cur.Succs[arm]
+	exit := s.exits[len(s.exits)-1]
+	reach := core.SearchReachEdge(cur, arm)
+	if reach[cur] || !reach[exit] {
+		return false
+	}
+	seen := map[*ssa.BasicBlock]bool{}
+	stack := []*ssa.BasicBlock{a}
+	for len(stack) > 0 {
+		b := stack[len(stack)-1]
+		stack = stack[:len(stack)-1]
+		if b == exit || seen[b] || !reach[b] {
+			continue
+		}
+		seen[b] = true
+		if len(seen) > 12 || len(b.Succs) == 0 || len(s.blockToks(b)) > 0 {
+			return false
+		}
+		stack = append(stack, b.Succs...)
+	}
+	return true
+}
+
 // loopExit: b is the exit of a loop whose body is being walked.
 func (s *shaper) loopExit(b *ssa.BasicBlock) bool {
 	for _, e := range s.exits {
@@ -292,7 +323,7 @@ func (s *shaper) callTok(call ssa.CallInstruction) (tok, bool) {
 		return t, true
 	}
 	// dynamic call (NewValue's table)
-	t.Kind, t.Name, t.Dir = "prim", "Dyn", "read"
+	t.Kind, t.Name, t.Dir, t.Call = "prim", "Dyn", "read", call
 	return t, true
 }
 
@@ -496,6 +527,13 @@ func (s *shaper) seq(start, stop *ssa.BasicBlock, seen map[*ssa.BasicBlock]bool)
 				kids := append(hdrToks, s.seq(body, cur, bodySeen)...)
 				s.exits = s.exits[:len(s.exits)-1]
 				s.headers = s.headers[:len(s.headers)-1]
+				if rows, ok := s.unrollTable(kids); ok {
+					// a loop over a constant table of functions: the sequence of its rows
+					out = append(out, rows...)
+					seen[cur] = true
+					cur = exit
+					continue
+				}
 				rep := tok{Kind: "rep", Kids: kids, Pos: last.Pos()}
 				// bound derives from the preceding prim?
 				if len(out) > 0 {
@@ -537,6 +575,18 @@ func (s *shaper) seq(start, stop *ssa.BasicBlock, seen map[*ssa.BasicBlock]bool)
 			if s.loopExit(cur.Succs[1]) && !s.loopExit(cur.Succs[0]) {
 				cur = cur.Succs[0]
 				continue
+			}
+			// an arm that sets a flag which ends the loop (done = true; continue): a break
+			if len(s.headers) > 0 {
+				q0, q1 := s.quietLeave(cur, 0), s.quietLeave(cur, 1)
+				if q0 && !q1 {
+					cur = cur.Succs[1]
+					continue
+				}
+				if q1 && !q0 {
+					cur = cur.Succs[0]
+					continue
+				}
 			}
 			// an early success return from inside a loop body that touches the stream no more
 			if len(s.headers) > 0 {
